@@ -20,25 +20,51 @@ open Beeb Beeb.GzL
 
 def gz : Bytes := strBytes ".gz"
 
+/-- everything about the state except the recorded names of the image files (which necessarily
+    differ: `name.gz` versus `name`; they matter only to the refusal to extract *over* an image) -/
+def forget (st : MainState) : MainState := { st with images := [] }
+
 /-- **Attaching `name.gz` is attaching `name`** whenever the compressed file
     inflates to the content of the uncompressed one — for every supported image
-    type (`loaderOf name` recognises the extension; `name` itself is not `.gz`). -/
+    type (`loaderOf name` recognises the extension; `name` itself is not `.gz`):
+    same drives, same media, same diagnostics; only the recorded image name differs. -/
 theorem C10_attach (fs : HostFs) (nd : Bool) (name : Bytes) (ld : Loader) (st : MainState)
     (hname : loaderOf name = some (false, ld))
     (hsame : fs (name ++ gz) = fs name) :
-    attachFile fs nd (name ++ gz) st = attachFile fs nd name st :=
+    (attachFile fs nd (name ++ gz) st).map forget = (attachFile fs nd name st).map forget ∧
+    ∀ st1 st2, attachFile fs nd (name ++ gz) st = .ok st1 → attachFile fs nd name st = .ok st2 →
+      st1.images = st.images ++ [name ++ gz] ∧ st2.images = st.images ++ [name] :=
   attach_gz fs nd name ld st hname hsame
+
+/-- the commands that write host files, and where: every file `extract-files DEST` /
+    `extract-unused DEST` creates is named `DEST/…`; a name that does not begin with
+    that prefix cannot be the target of any write -/
+def OutsideDest (rest : List Bytes) (path : Bytes) : Prop :=
+  ∀ a0 a, rest = [a0, a] → ¬ (destDir a).isPrefixOf path
 
 /-- **Transparency of a whole run**: replacing `--file name` by `--file name.gz`
     anywhere among the options changes nothing — standard output, exit status,
-    extracted files, diagnostics flag. -/
+    extracted files, diagnostics flag — provided the command is not asked to
+    extract into the very directory that holds the image (where the refusal to
+    overwrite an image file, which goes by name, could tell the two runs apart). -/
 theorem C10_transparent (fs : HostFs) (nd : Bool) (cols : Option Nat) (name : Bytes) (ld : Loader)
     (before after : List Opt) (rest : List Bytes)
     (hname : loaderOf name = some (false, ld))
-    (hsame : fs (name ++ gz) = fs name) :
+    (hsame : fs (name ++ gz) = fs name)
+    (hout : OutsideDest rest name ∧ OutsideDest rest (name ++ gz)) :
     dfsRun fs nd cols (before ++ [Opt.opt .file (name ++ gz)] ++ after) rest =
     dfsRun fs nd cols (before ++ [Opt.opt .file name] ++ after) rest :=
-  run_gz fs nd cols name ld before after rest hname hsame
+  run_gz fs nd cols name ld before after rest hname hsame hout
+
+/-- for every command other than the two extract commands no proviso is needed -/
+theorem C10_transparent_readonly (fs : HostFs) (nd : Bool) (cols : Option Nat) (name : Bytes) (ld : Loader)
+    (before after : List Opt) (rest : List Bytes)
+    (hname : loaderOf name = some (false, ld))
+    (hsame : fs (name ++ gz) = fs name)
+    (hcmd : rest.head? ≠ some (strBytes "extract-files") ∧ rest.head? ≠ some (strBytes "extract-unused")) :
+    dfsRun fs nd cols (before ++ [Opt.opt .file (name ++ gz)] ++ after) rest =
+    dfsRun fs nd cols (before ++ [Opt.opt .file name] ++ after) rest :=
+  run_gz_readonly fs nd cols name ld before after rest hname hsame hcmd
 
 /-- **A `.gz` file zlib rejects is rejected by dfs**: exit status 1, a diagnostic,
     nothing on standard output, no file written — it is never read as raw data,
